@@ -36,14 +36,25 @@ for d in sorted(glob.glob(os.path.join(ROOT, "seeded", "*"))):
     if len(summ) > 230:
         summ = summ[:227] + "…"
     note = " ".join(str(m.get("coordinator_note", "")).split())
-    rows.append("| %s | %s | %s | %s | %s |" % (name, m.get("property", ""), summ.replace("|", "\\|"), status, note.replace("|", "\\|")[:160]))
+    rc = [r for r in m.get("rechecks", []) if r.get("tier") == "quick"]
+    if m.get("applies_to_current_head") is False:
+        final = "patch superseded by a later `fix:` commit (no longer applies)"
+    elif rc:
+        r = rc[-1]
+        final = ("caught, concrete input" if r.get("concrete_failing_input") else "caught, no-failing-input-found") if r.get("detected") else "**not caught**"
+    else:
+        final = "—"
+    rows.append("| %s | %s | %s | %s | %s | %s |" % (name, m.get("property", ""), summ.replace("|", "\\|"), status, note.replace("|", "\\|")[:160], final))
 sec = ["## 11. Seeded changes: which check catches which", "",
        "Each change was written by an independent agent that saw only the property text and a scratch worktree of",
        "/repo (never /verif); each compiles, passes the repository's own tests, and comes with a demonstration test",
        "that fails with the change and passes without it (all re-confirmed by the coordinator, `lib/try_seed.sh`).",
        "`caught` = `VERIF_REPO=<tree with the change> ./check <ID> --tier quick` printed a VIOLATION line; the column",
-       "on the right is the check's own summary line for that run. Files: `seeded/<name>/{patch.diff, zz_seed_demo_test.go, meta.json}`.", "",
-       "| seed | property | change | result | check summary |", "|---|---|---|---|---|"] + rows + [""]
+       "next to it is the check's own summary line for that run. Files: `seeded/<name>/{patch.diff, zz_seed_demo_test.go, meta.json}`.",
+       "The last column is the re-run of every kept seed against the final machinery and /repo HEAD (`lib/recheck_seed.sh`,",
+       "recorded in `meta.json` under `rechecks`): *concrete input* = the VIOLATION line names a replay file with a failing input,",
+       "*no-failing-input-found* = only a proof obligation or the correspondence broke.", "",
+       "| seed | property | change | result | check summary | final re-run |", "|---|---|---|---|---|---|"] + rows + [""]
 sec = "\n".join(sec)
 pat = re.compile(r"^## 11\. Seeded changes.*?(?=^## \d+\. |\Z)", re.S | re.M)
 if pat.search(s):
